@@ -6,6 +6,9 @@ import subprocess
 from . import build, driver, toolchain
 
 
+IMAGE_BUDGET_S = 900      # the longest legitimate image run (xhexb compiling a program, thorough tier) takes a few minutes
+
+
 def run_harness(P, exe, mode_args, seed, n, scratch, tag, size=100):
     d = os.path.join(scratch, tag)
     os.makedirs(d, exist_ok=True)
@@ -39,7 +42,10 @@ def rerun_case(P, exe, case, scratch, tag='rerun'):
             img = case['path']
         open(inp, 'wb').write(bytes.fromhex(case.get('input', '')))
         args = ['image', img, inp, str(case.get('max_steps', 50000000))]
-    r = subprocess.run([exe] + args, stdout=subprocess.PIPE, stderr=subprocess.PIPE, env=env)
+    try:
+        r = subprocess.run([exe] + args, stdout=subprocess.PIPE, stderr=subprocess.PIPE, env=env, timeout=IMAGE_BUDGET_S * driver.TIMEOUT_SCALE)
+    except subprocess.TimeoutExpired:
+        return True, 'the harness did not finish within %d s (the implementation hung, or grew without bound, while loading or running this case)' % IMAGE_BUDGET_S
     fp = os.path.join(d, 'fail.json')
     if os.path.exists(fp):
         return True, json.load(open(fp)).get('diff', '')
@@ -114,7 +120,12 @@ def run(ctx, P, target, n_grid, n_seq):
             elif p.returncode != 0:
                 ctx.error(target + ' %s worker exited %d without a counterexample: %s' % (kind, p.returncode, se.decode(errors='replace')[-1500:]))
         for name, img, inp, d, p in img_procs:
-            so, se = p.communicate()
+            try:
+                so, se = p.communicate(timeout=(240 if quick else IMAGE_BUDGET_S) * driver.TIMEOUT_SCALE)
+            except subprocess.TimeoutExpired:
+                p.kill()
+                so, se = p.communicate()
+                se = b'TIMEOUT'
             outp = os.path.join(d, 'out.json')
             if os.path.exists(outp):
                 o = json.load(open(outp))
@@ -133,7 +144,16 @@ def run(ctx, P, target, n_grid, n_seq):
                 case.pop('path', None)
                 report(ctx, P, exe, case, scratch)
             elif p.returncode != 0:
-                ctx.error(target + ' image %s exited %d: %s' % (name, p.returncode, se.decode(errors='replace')[-1500:]))
+                # killed (out of memory, time-out) or died without leaving a counterexample: the image itself is the replayable case
+                case = dict(kind='image', name=name, file=open(img, 'rb').read().hex(), input=inp.hex(), max_steps=60000000,
+                            diff='the harness %s while loading or running image %s' % ('did not finish in time' if se == b'TIMEOUT' else 'was killed or exited with status %d' % p.returncode, name))
+                if ctx.notes.get('image_runs_killed', 0) == 0:
+                    f1, d1 = rerun_case(P, exe, case, scratch, tag='killed')
+                    if f1:
+                        ctx.violation(case, case['diff'] + ' (confirmed by a second run: ' + d1[:200] + ')')
+                    else:
+                        ctx.error(target + ' image %s exited %d once, and passed when run again: %s' % (name, p.returncode, se.decode(errors='replace')[-600:]))
+                ctx.notes['image_runs_killed'] = ctx.notes.get('image_runs_killed', 0) + 1
         ctx.min_nontrivial = 1000
 
 
